@@ -26,7 +26,7 @@ package cose
 //@   callassert Verify#1: @digest bytes(arg1) == digest(happ(hinit(u(sighash(alg))), Enc(tuple("Signature1", protected, tuple(additionalData), *s1.Payload))))
 //@   callassert Verify#1: @r BigVal(u(arg2)) == BigOf(bytes(s1.Signature[0:n]))
 //@   callassert Verify#1: @s BigVal(u(arg3)) == BigOf(bytes(s1.Signature[n:]))
-//@   callassert Verify#1: @siglen len(s1.Signature) == 2*n
+//@   callassert Verify#1: @siglen len(s1.Signature) == 2*n && n == (BitLenOf(OrderOf(u(pub.Curve))) + 7) / 8
 //@   callassert verifyRSA#1: @key u(arg0) == u(key)
 //@   callassert verifyRSA#1: @hash arg1 == sighash(alg)
 //@   callassert verifyRSA#1: @digest bytes(arg2) == digest(happ(hinit(u(sighash(alg))), Enc(tuple("Signature1", protected, tuple(additionalData), *s1.Payload))))
@@ -74,7 +74,7 @@ package cose
 //@   props C13 C05(functional)
 //@   sweep bounds,panic,make,nilmem
 //@   requires @registered macregistered(alg)
-//@   modifies m0.Value
+//@   modifies m0.Value, m0.Protected
 //@   ensures @payload err == nil && payload == nil ==> m0.Payload != nil
 //@   ensures! err == nil && payload == nil ==> bytes(m0.Value) == MacOf(u(alg), bytes(key), u(m0.Protected), u(*m0.Payload))
 //@   callassert Encode#1: @structure ? u(unwrap(v)) == tuple("MAC0", protected, tuple(aad), *macPayload)
